@@ -36,7 +36,10 @@ THEOREMS = [
     "RefineCtorInit.from_data_frame_ok", "C03.generated_from_data_frame_spec",
 ]
 TRUSTED = ["the per-operation models of C05 (sort), C06 (subtree / prune / cut), C07 (re-root, concatenate), C09 (heap: copies allocate), C12 (transforms touch only x, y, z), "
-           "each tied to the code by its own correspondence suite; this property's suite checks the composition on the real library"]
+           "each tied to the code by its own correspondence suite; this property's suite checks the composition on the real library",
+           "Gen/AlgoCtor / AlgoCtorInit (T26): DataFrames / numpy arrays as heap objects (Model/PyCtor.lean), hooks and glue of harness/algo_specs/51_ctor.py "
+           "(list in design_notes/session4/ctor.md): df.copy() is a deep copy, df[k].to_numpy() hands out the column's own array, integer-valued data under dtype "
+           "casts — exercised by c03.copying / c03.ctor / c03.fromdf with np.shares_memory"]
 ASSUMPTIONS = ["numpy aliasing rules (fancy index / arithmetic / np.concatenate allocate, basic slices are views) — observed with np.shares_memory on every "
                "(input column, output column) pair after every step", "resampling and smoothing enter the pipeline theorem only through their topology (C16 / C08 models)"]
 
